@@ -381,14 +381,11 @@ func (db *DB) setUnpin(batch driver.Batching, item, rootItem shed.Item) (gcSizeC
 			if !errors.Is(err, driver.ErrNotFound) {
 				return 0, err
 			}
-			rootItem.AccessTimestamp = now()
-			err = db.retrievalAccessIndex.PutInBatch(batch, rootItem)
-			if err != nil {
-				return 0, err
-			}
-		} else {
-			rootItem.AccessTimestamp = i.AccessTimestamp
+			// a file without an access entry was never cached: it was
+			// stored by local upload and must not become collectable
+			return 0, nil
 		}
+		rootItem.AccessTimestamp = i.AccessTimestamp
 
 		i, err = db.retrievalDataIndex.Get(rootItem)
 		if err != nil {
